@@ -302,7 +302,7 @@ Proof.
 Qed.
 
 Lemma finish_group_no_panic dec t g fl a : no_panic (finish_group dec t g fl a).
-Proof. unfold finish_group. destruct dec; [destruct t|]; exact I. Qed.
+Proof. unfold finish_group. destruct dec; [destruct fl; [exact I|destruct t]|]; exact I. Qed.
 
 Lemma new_result_grouped_no_panic dec t tg g : no_panic (new_result_grouped dec t tg g).
 Proof.
@@ -608,7 +608,8 @@ Lemma finish_group_ok dec t g fl a r :
   g <> 0 -> finish_group dec t g fl a = POk r -> Forall rleaf_ok (decl_rleaves r).
 Proof.
   intros Hg. unfold finish_group. destruct dec.
-  - destruct t; try discriminate. intros H; inversion H; subst; simpl.
+  - destruct fl; [discriminate|].
+    destruct t; try discriminate. intros H; inversion H; subst; simpl.
     constructor; [|constructor]. constructor; [|constructor]. split; [exact Hg | reflexivity].
   - intros H; inversion H; subst; simpl. constructor; [|constructor]. simpl.
     constructor; [split; [exact Hg | reflexivity]|].
